@@ -204,7 +204,8 @@ def rand_raw(rng, d):
     if d[5]:
         # float: exactly representable, non-NaN patterns
         while True:
-            v = rng.choice([0, 1, hi, rng.randint(lo, hi), rng.randint(lo, hi)])
+            # incl. -0.0 (sign bit only) and the smallest negative denormal
+            v = rng.choice([0, 1, hi, 1 << (d[2] - 1), (1 << (d[2] - 1)) | 1, rng.randint(lo, hi), rng.randint(lo, hi)])
             exp_all_ones = ((v >> 23) & 0xFF) == 0xFF if d[2] == 32 else ((v >> 52) & 0x7FF) == 0x7FF
             if not exp_all_ones:
                 return v
